@@ -381,6 +381,10 @@ def build_sprout(spec, share_key=None):
 
 
 def _build_sprout(spec):
+    if spec.get("factory") == "nbc" and spec.get("positional"):
+        # the documented signature allows the four arguments to be given positionally
+        return get_NBC_sprout(float(spec["gen_dist_factor"]), float(spec["trunc_factor"]),
+                              float(spec["fil_dist_factor"]), int(spec["level_limit"]))
     if spec.get("factory") == "nbc":
         return get_NBC_sprout(
             gen_dist_factor=float(spec["gen_dist_factor"]),
